@@ -37,6 +37,12 @@ const (
 	evT7Timeout                      // T7 NOT-SELECTED dwell expired: NotSelected -> NotConnected (no-op otherwise)
 )
 
+// evPrecommitted is OR-ed into the event enqueued by a synchronous commit (CommitConnected /
+// CommitSelected / CommitSelectLost). The committer has ALREADY CAS-stored the target state, so for
+// such an event step() only owes the deduped reaction/notify; it must never (re)store a state. A raw
+// event (no flag) keeps the plain table semantics.
+const evPrecommitted fsmEvent = 0x80
+
 // evGenTagged marks an evDisconnect / evT7Timeout that carries, in bits 8..31, the TCP-generation
 // counter (supervisor.gen) read when the transport reported it (TCPDown / T7Expired). The events
 // queue outlives a TCP generation, so such an event can still be queued when the NEXT generation has
@@ -220,7 +226,7 @@ func (s *supervisor) State() ConnState {
 func (s *supervisor) CommitConnected() (committed bool) {
 	if s.state.CompareAndSwap(uint32(NotConnectedState), uint32(NotSelectedState)) {
 		s.gen.Add(1) // a new TCP generation: evDisconnect/evT7Timeout tagged with an older one are now stale
-		s.inject(evTCPUp)
+		s.inject(evTCPUp | evPrecommitted)
 
 		return true
 	}
@@ -237,7 +243,7 @@ func (s *supervisor) CommitConnected() (committed bool) {
 // Selected is a no-op returning false.
 func (s *supervisor) CommitSelected() (committed bool) {
 	if s.state.CompareAndSwap(uint32(NotSelectedState), uint32(SelectedState)) {
-		s.inject(evSelectAccepted)
+		s.inject(evSelectAccepted | evPrecommitted)
 
 		return true
 	}
@@ -257,7 +263,7 @@ func (s *supervisor) CommitSelected() (committed bool) {
 // whether THIS call performed the commit; a call when not Selected is a no-op returning false.
 func (s *supervisor) CommitSelectLost() (committed bool) {
 	if s.state.CompareAndSwap(uint32(SelectedState), uint32(NotSelectedState)) {
-		s.inject(evSelectLost)
+		s.inject(evSelectLost | evPrecommitted)
 
 		return true
 	}
@@ -316,6 +322,7 @@ func (s *supervisor) step(ev fsmEvent) {
 		return
 	}
 
+	precommitted := ev&evPrecommitted != 0
 	ev &= evKindMask
 
 	cur := ConnState(s.state.Load())
@@ -334,6 +341,17 @@ func (s *supervisor) step(ev fsmEvent) {
 	// flap the FSM (spuriously Rejecting a legitimately-selected peer's next frame, the efb220b class).
 	// Same supersession rationale as the evT7Timeout CAS below.
 	if ev == evSelectLost && cur == SelectedState {
+		return
+	}
+
+	// Symmetric supersession: a PRECOMMITTED evSelectAccepted is enqueued only after CommitSelected has
+	// already CAS'd NotSelected -> Selected. If step now observes NotSelected, a later synchronous
+	// CommitSelectLost (a peer that pipelined Select.req -> Deselect.req before this goroutine ran)
+	// superseded it. ABANDON it: the plain Store below would re-store Selected for a session the peer
+	// has already deselected — and the evSelectLost queued behind it is then abandoned by the check
+	// above, leaving State() Selected for good (inbound data delivered instead of Rejected, the next
+	// Select.req answered "already active").
+	if precommitted && ev == evSelectAccepted && cur == NotSelectedState {
 		return
 	}
 
